@@ -16,7 +16,7 @@ RULE = ("Under overflow='wrap': stored code must satisfy lo<=code<=hi AND code =
         "Non-trivial = ROUND(x) outside [lo,hi]; distinct = distinct (format, rounding, route, input).")
 ASSUMPTIONS = ['core-domain inputs are exact doubles; wide formats use Python-int inputs only (float inputs into >=64-bit words are outside the statement)',
                'ROUND of the reference model is trusted (cross-checked relationally by C05)']
-EXHAUSTIVE = True
+EXHAUSTIVE = False    # the whole quantifier is not enumerated; complete sub-domains are listed in EXHAUSTIVE_SUBDOMAINS
 EXHAUSTIVE_SUBDOMAINS = {'quick': ['quarter-LSB grid over 3x range, n_word<=6, all n_frac, 5 roundings, wrap'], 'thorough': ['same, n_word<=7']}
 REQUIRED_CLASSES = {'wrapped': 500, 'wide': 300, 'shift-invariance': 300, 'register': 300, 'resign': 500}
 
